@@ -81,8 +81,8 @@ def program_cases(tier, rnd):
     for i in range(nkeys):
         k = bytes(rnd.randrange(256) for _ in range(8))
         yield {"key": k, "blocks": std_blocks(rnd, 4), "parity_twin": i % 5 == 0, "cross": i % 4 == 0}
-    for i in range(64 if tier == "thorough" else 16):          # single-bit keys
-        k = (1 << (i * (4 if tier == "quick" else 1) % 64)).to_bytes(8, "big")
+    for i in range(64):          # single-bit keys
+        k = (1 << i).to_bytes(8, "big")
         yield {"key": k, "blocks": std_blocks(rnd, 2)[::3], "parity_twin": False, "cross": False}
 
 
@@ -101,7 +101,7 @@ FACETS = [
     Facet("programs-standard-blocks", check_program, cases=program_cases, shards={"quick": 16, "thorough": 32},
           nontrivial=lambda c: len(set(c["key"])) > 1, classify=lambda c: ("special key" if c["key"] in SPECIAL_KEYS else "random key",
                                                                         "parity twin checked" if c.get("parity_twin") else "no twin"),
-          rule="4 weak + 12 semi-weak + zero + all-one keys, 64 (900) random keys, single-bit keys; per program the 64 single-bit blocks, zero, "
+          rule="4 weak + 12 semi-weak + zero + all-one keys, 64 (900) random keys, all 64 single-bit keys; per program the 64 single-bit blocks, zero, "
                "all-ones and random blocks; table shape; key-independent tables equal across keys; tables identical for keys differing only in parity bits"),
     Facet("programs-random-blocks", check_program, strategy=program_strategy, budget={"quick": 96, "thorough": 1500},
           shards={"quick": 16, "thorough": 32}, suppress_too_slow=True,
